@@ -358,6 +358,10 @@ func (f *File) WriteString(s string) (int, error) { return f.Write([]byte(s)) }
 
 func (f *File) Read(p []byte) (int, error) {
 	fs := f.fs
+	// a read is a system call: other tasks run while it is in progress (two
+	// tasks reading through shared state, e.g. one buffered reader, interleave
+	// here)
+	point("read", f.path)
 	fs.mu.Lock()
 	defer fs.mu.Unlock()
 	if f.closed {
